@@ -17,6 +17,8 @@
 (*                  sub-object held in field a (a collection with its own  *)
 (*                  lock: the list inside a queue); the callee runs its    *)
 (*                  own steps, including its own acq                       *)
+(*   cb    b        run caller code: the handler held in field b, the       *)
+(*                  comparator handed in as parameter b                    *)
 (*   acc   r w      read the locations r and write the locations w of the  *)
 (*                  object: f = field f, f* = the elements behind the      *)
 (*                  slice field f, *.n = field n of some node of the       *)
@@ -90,6 +92,14 @@ PointOps == {"Put", "PutFirst", "PutLast", "Add", "AddFirst", "AddLast", "AddNoO
              "Remove", "RemoveFirst", "RemoveLast", "Clear", "Size", "IsEmpty",
              "Put1", "Put2", "PutForce", "PutForce1", "PutForce2", "GetNoWait", "GetTimeout", "Size1", "Size2"}
 IsPoint(m) == m \in PointOps
+\* batch operations: one goroutine issuing a sequence of point operations through ONE public call (PutAll(values) = a put
+\* per value).  They are not atomic and not one critical section by design (no NoSplit, no linearization point of their
+\* own), but what they do to the instance between and around their point operations is part of "any concurrent mix of
+\* point operations ... contains no data race": pre-growing the table, reading count / threshold, calling an unexported
+\* helper -- all of it must happen under the instance lock.  Judged for NoDataRace against every point operation.
+BatchOps == {"PutAll", "AddAll", "RemoveAll", "GetAll", "ContainsAll"}
+IsBatch(m)  == m \in BatchOps
+IsJudged(m) == IsPoint(m) \/ IsBatch(m)
 
 \* ---- state -------------------------------------------------------------------
 VARIABLES scen,   \* the scenario: [kind |-> "alone" | "pair" | "alias" | "cross", ty |-> type, ms |-> <<m>> or <<m1, m2>>]
@@ -159,11 +169,14 @@ Call(t) ==    /\ Busy(t) /\ Cur(t).k = "call"
                      runs == s.b \in MethodsOf(ty2) /\ Len(StepsOf(ty2, s.b)) > 0
                  IN stk' = [stk EXCEPT ![t] = IF runs THEN Append(Advanced(@), Frame(o2, ty2, s.b, p2)) ELSE Advanced(@)]
               /\ UNCHANGED <<scen, held, pend, secs>>
+Callback(t) == /\ Busy(t) /\ Cur(t).k = "cb"
+               /\ stk' = [stk EXCEPT ![t] = Advanced(@)]
+               /\ UNCHANGED <<scen, held, pend, secs>>
 Return(t) ==  /\ Busy(t) /\ Cur(t).k = "ret"
               /\ stk' = [stk EXCEPT ![t] = SubSeq(@, 1, Len(@) - 1)]
               /\ UNCHANGED <<scen, held, pend, secs>>
 
-Next == \E t \in Threads : Acquire(t) \/ Release(t) \/ Access(t) \/ Call(t) \/ Return(t)
+Next == \E t \in Threads : Acquire(t) \/ Release(t) \/ Access(t) \/ Call(t) \/ Callback(t) \/ Return(t)
 
 \* ---- scenarios -------------------------------------------------------------------
 Idle == [t \in Threads |-> <<>>]
@@ -185,9 +198,9 @@ Init == /\ held = [t \in Threads |-> <<>>]
         /\ \E ty \in TypeNames :
              \/ \E m \in SeqRange(Pubs(ty)) : Alone(ty, m)
              \/ \E i, j \in 1..Len(Pubs(ty)) :
-                  /\ IsPoint(Pubs(ty)[i])
-                  /\ IF PairWith = "point" THEN IsPoint(Pubs(ty)[j]) /\ i <= j
-                                           ELSE IsPoint(Pubs(ty)[j]) => i <= j
+                  /\ IsJudged(Pubs(ty)[i])
+                  /\ IF PairWith = "point" THEN IsJudged(Pubs(ty)[j]) /\ i <= j
+                                           ELSE IsJudged(Pubs(ty)[j]) => i <= j
                   /\ Pair(ty, Pubs(ty)[i], Pubs(ty)[j])
              \/ \E m \in SeqRange(Pubs(ty)) : TakesPeer(ty, m) /\ Alias(ty, m)
              \/ \E i, j \in 1..Len(Pubs(ty)) :
@@ -215,6 +228,12 @@ NoLeak == \A t \in Threads : ~Busy(t) => held[t] = <<>> /\ pend[t] = <<>>
 Split(t) == /\ Busy(t) /\ t <= Len(scen.ms) /\ IsPoint(scen.ms[t])
             /\ Cur(t).k = "acq" /\ Cur(t).a # "wait" /\ ObjOf(t) = Own(t) /\ secs[t] >= 1
 NoSplit == \A t \in Threads : ~Split(t)
+\* caller code (a handler, a comparator) run by a public method of ANY kind between two critical sections on its
+\* instance: the lock was given up for the caller's function.  Like NoSplit a hint, not a verdict: it tells the gated
+\* histories (another goroutine's point operation issued from inside the caller's function) where to put their effort.
+OpenCallback(t) == /\ Busy(t) /\ Cur(t).k = "cb" /\ secs[t] >= 1
+                   /\ ~Holds(t, Own(t), "x") /\ ~Holds(t, Own(t), "s")
+NoOpenCallback == \A t \in Threads : ~OpenCallback(t)
 
 \* the locations on which two threads conflict right now
 ConflictOn(t1, t2) ==
@@ -223,7 +242,7 @@ ConflictOn(t1, t2) ==
            r2 == SeqRange(Cur(t2).r) w2 == SeqRange(Cur(t2).w)
        IN (w1 \cap (r2 \cup w2)) \cup (w2 \cap r1)
   ELSE {}
-BothPoint == Len(scen.ms) = 2 /\ IsPoint(scen.ms[1]) /\ IsPoint(scen.ms[2])
+BothPoint == Len(scen.ms) = 2 /\ IsJudged(scen.ms[1]) /\ IsJudged(scen.ms[2])
 NoDataRace == BothPoint => \A t1, t2 \in Threads : t1 # t2 => ConflictOn(t1, t2) = {}
 
 \* recursion in the extracted call graph would make the stacks grow without bound
